@@ -119,6 +119,7 @@ type c15Rec struct {
 	msg         *mqtt.Message
 	finished    bool
 	err         error
+	cancel      context.CancelFunc
 }
 
 type c15World struct {
@@ -272,8 +273,10 @@ func (w *c15World) newRec(caller, idx int, r c15Req) *c15Rec {
 }
 
 // start launches the blocking API call of the request on its own goroutine.
-func (w *c15World) start(ctx context.Context, rec *c15Rec) {
+func (w *c15World) start(parent context.Context, rec *c15Rec) {
 	cli := w.s.cli
+	ctx, cancel := context.WithCancel(parent) // every request can be abandoned on its own
+	rec.cancel = cancel
 	switch rec.req.Kind {
 	case 'p':
 		rec.msg = &mqtt.Message{Topic: rec.tag, QoS: mqtt.QoS(rec.req.QoS), ID: rec.req.Given, Payload: []byte{1}}
@@ -358,6 +361,8 @@ type c15Out struct {
 	wrapc, retry       []string
 	nontrivN           int
 	retrySamples       int
+	handle             []string
+	handleSamples      int
 }
 
 func (o *c15Out) violation(kind string, detail interface{}) {
@@ -379,21 +384,35 @@ func c15StartClass(s uint32) string {
 
 // ---------- family seq ----------
 
+// Ack: the peer acknowledges request J. Cancel: the caller abandons request J (its context is
+// cancelled, the call returns, the acknowledgement never comes) — both end the request (HAck J).
+// UseFrom: the publish carries, as the caller's identifier, the identifier request From was seen
+// to use (a message published again after its first attempt was abandoned, or a caller's
+// identifier that happens to equal the one of a pending SUBSCRIBE/UNSUBSCRIBE).
 type c15Ev struct {
-	Ack bool
-	Req c15Req
-	J   int
+	Ack     bool
+	Cancel  bool
+	Req     c15Req
+	J       int
+	UseFrom bool
+	From    int
 }
 
 func (e c15Ev) coq() string {
-	if e.Ack {
+	if e.Ack || e.Cancel {
 		return fmt.Sprintf("HAck %d", e.J)
 	}
 	return "HReq (" + e.Req.coq() + ")"
 }
 func (e c15Ev) desc() string {
+	if e.Cancel {
+		return fmt.Sprintf("cancel#%d", e.J)
+	}
 	if e.Ack {
 		return fmt.Sprintf("ack#%d", e.J)
+	}
+	if e.UseFrom {
+		return fmt.Sprintf("publish(q%d,id=that of #%d)", e.Req.QoS, e.From)
 	}
 	return e.Req.desc()
 }
@@ -417,9 +436,15 @@ func c15RandReq(r *rand.Rand) c15Req {
 // identifiers are taken behind the start position (so the library will not choose them during the
 // history) or ahead of everything chosen so far and then acknowledged at once; they never equal
 // an identifier that is in use — the environment assumption of the property.
-func c15GenHistory(r *rand.Rand, s uint32, n, pAck, pGiven int) []c15Ev {
+// pCancel = chance (percent) that an outstanding request is abandoned by its caller instead of being
+// acknowledged; an abandoned publish is, half of the time, published again with the identifier of
+// its first attempt (what an application does after a timeout). Now and then a publish carries the
+// identifier of a SUBSCRIBE/UNSUBSCRIBE that is still waiting (a different kind of request: the
+// acknowledgements cannot be confused).
+func c15GenHistory(r *rand.Rand, s uint32, n, pAck, pGiven, pCancel int) []c15Ev {
 	var h []c15Ev
 	var outstanding []int
+	var reqOf []c15Req
 	total := 0
 	behind := 0
 	autos := 0
@@ -436,6 +461,7 @@ func c15GenHistory(r *rand.Rand, s uint32, n, pAck, pGiven int) []c15Ev {
 			}
 		}
 		h = append(h, c15Ev{Req: rq})
+		reqOf = append(reqOf, rq)
 		if rq.auto() {
 			autos++
 		}
@@ -447,13 +473,32 @@ func c15GenHistory(r *rand.Rand, s uint32, n, pAck, pGiven int) []c15Ev {
 			}
 		}
 		total++
+		if pCancel > 0 && rq.Kind != 'p' && rq.tracked() && r.Intn(100) < pCancel {
+			// a publish with the identifier of this pending SUBSCRIBE/UNSUBSCRIBE, acknowledged at once
+			pq := c15Req{Kind: 'p', QoS: byte(1 + r.Intn(2))}
+			h = append(h, c15Ev{Req: pq, UseFrom: true, From: total - 1}, c15Ev{Ack: true, J: total})
+			reqOf = append(reqOf, pq)
+			total++
+		}
 		for len(outstanding) > 0 && r.Intn(100) < pAck {
 			k := r.Intn(len(outstanding))
 			if r.Intn(2) == 0 {
 				k = 0 // oldest first, half of the time
 			}
-			h = append(h, c15Ev{Ack: true, J: outstanding[k]})
+			j := outstanding[k]
 			outstanding = append(outstanding[:k], outstanding[k+1:]...)
+			if r.Intn(100) >= pCancel {
+				h = append(h, c15Ev{Ack: true, J: j})
+				continue
+			}
+			h = append(h, c15Ev{Cancel: true, J: j})
+			if reqOf[j].Kind == 'p' && r.Intn(2) == 0 {
+				pq := c15Req{Kind: 'p', QoS: byte(1 + r.Intn(2))}
+				h = append(h, c15Ev{Req: pq, UseFrom: true, From: j})
+				reqOf = append(reqOf, pq)
+				outstanding = append(outstanding, total)
+				total++
+			}
 		}
 	}
 	// acknowledge most of what is left, in random order
@@ -466,6 +511,65 @@ func c15GenHistory(r *rand.Rand, s uint32, n, pAck, pGiven int) []c15Ev {
 		h = append(h, c15Ev{Ack: true, J: j})
 	}
 	return h
+}
+
+// c15Exec runs a history on the world's client: returns the requests, the observations (Coq and
+// readable), the history as executed (identifiers of UseFrom events resolved), and what got stuck.
+func c15Exec(o *c15Out, w *c15World, ctx context.Context, h []c15Ev) (recs []*c15Rec, obs, desc, hin []string, stuck string) {
+	for _, e := range h {
+		if e.Ack || e.Cancel {
+			hin = append(hin, e.coq())
+			rec := recs[e.J]
+			if e.Cancel {
+				rec.cancel()
+				if !w.waitDone(rec) {
+					stuck = fmt.Sprintf("request #%d (%s) did not return after its context was cancelled", e.J, rec.req.desc())
+					break
+				}
+				obs = append(obs, fmt.Sprintf("OAck %d", e.J))
+				desc = append(desc, fmt.Sprintf("cancel#%d", e.J))
+				continue
+			}
+			w.ack(rec)
+			if !w.waitDone(rec) {
+				stuck = fmt.Sprintf("request #%d (%s, identifier %d on the wire) did not complete after its acknowledgement", e.J, rec.req.desc(), rec.id)
+				break
+			}
+			if rec.err != nil {
+				stuck = fmt.Sprintf("request #%d failed: %v", e.J, rec.err)
+				break
+			}
+			obs = append(obs, fmt.Sprintf("OAck %d", e.J))
+			desc = append(desc, fmt.Sprintf("ack#%d", e.J))
+			continue
+		}
+		if e.UseFrom {
+			e.Req.Given = recs[e.From].obsID()
+		}
+		hin = append(hin, e.coq())
+		rec := w.newRec(0, len(recs), e.Req)
+		recs = append(recs, rec)
+		w.start(ctx, rec)
+		if !w.waitWrote(rec) {
+			stuck = fmt.Sprintf("request #%d (%s) never reached the wire", len(recs)-1, e.Req.desc())
+			break
+		}
+		if !e.Req.tracked() {
+			if !w.waitDone(rec) {
+				stuck = fmt.Sprintf("QoS 0 publish #%d did not return", len(recs)-1)
+				break
+			}
+		}
+		if e.Req.Kind == 'p' && e.Req.Given != 0 && rec.msg.ID != e.Req.Given {
+			// the packet is on the wire, so publishImpl is past the point where it touches Message.ID
+			o.violation("caller's Message.ID overwritten", map[string]interface{}{"request": e.Req.desc(),
+				"message_id_now": rec.msg.ID, "on_the_wire": rec.id})
+		}
+		obs = append(obs, rec.coqIssue())
+		desc = append(desc, fmt.Sprintf("%s->%d", e.Req.desc(), rec.obsID()))
+		o.kinds[e.Req.desc0()]++
+	}
+	return
 }
 
 // c15RunSeq executes a history on a fresh client. natural: keep the library's own start value.
@@ -489,43 +593,7 @@ func c15RunSeq(o *c15Out, s uint32, natural bool, h []c15Ev) error {
 	}
 	ctx, cancel := ctxTimeout(5 * time.Minute)
 	defer cancel()
-	var recs []*c15Rec
-	var obs, desc, hin []string
-	stuck := ""
-	for _, e := range h {
-		hin = append(hin, e.coq())
-		if e.Ack {
-			rec := recs[e.J]
-			w.ack(rec)
-			if !w.waitDone(rec) {
-				stuck = fmt.Sprintf("request #%d (%s, identifier %d on the wire) did not complete after its acknowledgement", e.J, rec.req.desc(), rec.id)
-				break
-			}
-			if rec.err != nil {
-				stuck = fmt.Sprintf("request #%d failed: %v", e.J, rec.err)
-				break
-			}
-			obs = append(obs, fmt.Sprintf("OAck %d", e.J))
-			desc = append(desc, fmt.Sprintf("ack#%d", e.J))
-			continue
-		}
-		rec := w.newRec(0, len(recs), e.Req)
-		recs = append(recs, rec)
-		w.start(ctx, rec)
-		if !w.waitWrote(rec) {
-			stuck = fmt.Sprintf("request #%d (%s) never reached the wire", len(recs)-1, e.Req.desc())
-			break
-		}
-		if !e.Req.tracked() {
-			if !w.waitDone(rec) {
-				stuck = fmt.Sprintf("QoS 0 publish #%d did not return", len(recs)-1)
-				break
-			}
-		}
-		obs = append(obs, rec.coqIssue())
-		desc = append(desc, fmt.Sprintf("%s->%d", e.Req.desc(), rec.obsID()))
-		o.kinds[e.Req.desc0()]++
-	}
+	recs, obs, desc, hin, stuck := c15Exec(o, w, ctx, h)
 	o.requests += len(recs)
 	if stuck != "" {
 		o.violation("stuck", map[string]interface{}{"start": s, "history": c15Descs(h), "what": stuck})
@@ -1133,9 +1201,26 @@ func runC15(cfg *runCfg) error {
 			return err
 		}
 	}
+	// round 4: a publish abandoned by its caller (stale waiter entry) and published again with the
+	// same identifier — caller-provided, or filled in by the first attempt; and a caller's identifier
+	// equal to that of a pending SUBSCRIBE / UNSUBSCRIBE: it must go out unchanged
+	for _, s := range []uint32{99, 0xFFFD, 0xFFFFFFFE, 0x4D2FFFF} {
+		for _, q := range []byte{1, 2} {
+			x := c15Nth(s, -3)
+			for _, h := range [][]c15Ev{
+				{{Req: c15Req{Kind: 'p', QoS: q, Given: x}}, {Cancel: true, J: 0}, {Req: c15Req{Kind: 'p', QoS: q}, UseFrom: true, From: 0}, {Ack: true, J: 1}},
+				{{Req: c15Req{Kind: 'p', QoS: q}}, {Cancel: true, J: 0}, {Req: c15Req{Kind: 's'}}, {Req: c15Req{Kind: 'p', QoS: 3 - q}, UseFrom: true, From: 0}, {Ack: true, J: 2}, {Ack: true, J: 1}},
+				{{Req: c15Req{Kind: 's'}}, {Req: c15Req{Kind: 'p', QoS: q}, UseFrom: true, From: 0}, {Req: c15Req{Kind: 'u'}}, {Ack: true, J: 1}, {Req: c15Req{Kind: 'p', QoS: q}, UseFrom: true, From: 2}, {Ack: true, J: 0}, {Ack: true, J: 3}, {Ack: true, J: 2}},
+			} {
+				if err := c15RunSeq(o, s, false, h); err != nil {
+					return err
+				}
+			}
+		}
+	}
 	// the library's own start value
 	for i := 0; i < 6; i++ {
-		if err := c15RunSeq(o, 0, true, c15GenHistory(r, 30000, 3+r.Intn(10), 30, 0)); err != nil {
+		if err := c15RunSeq(o, 0, true, c15GenHistory(r, 30000, 3+r.Intn(10), 30, 0, 0)); err != nil {
 			return err
 		}
 	}
@@ -1144,7 +1229,11 @@ func runC15(cfg *runCfg) error {
 		n := 1 + r.Intn(maxLen)
 		pAck := []int{0, 10, 30, 60}[r.Intn(4)]
 		pGiven := []int{0, 0, 25, 60}[r.Intn(4)]
-		if err := c15RunSeq(o, s, false, c15GenHistory(r, s, n, pAck, pGiven)); err != nil {
+		pCancel := []int{0, 0, 20, 40}[r.Intn(4)]
+		if pCancel > 0 && pAck == 0 {
+			pAck = 30
+		}
+		if err := c15RunSeq(o, s, false, c15GenHistory(r, s, n, pAck, pGiven, pCancel)); err != nil {
 			return err
 		}
 	}
@@ -1209,6 +1298,10 @@ func runC15(cfg *runCfg) error {
 	if err := c15Retry(o, r, cfg.tier); err != nil {
 		return err
 	}
+	// --- handle: retry handles run on another client ---
+	if err := c15Handle(o, r, cfg.tier); err != nil {
+		return err
+	}
 	// --- cycle / F13 probe ---
 	f13 := 0
 	for i := 0; i < cycles; i++ {
@@ -1248,15 +1341,18 @@ func runC15(cfg *runCfg) error {
 	cf.def("retry_cases", "list c15_retry_case", cList(o.retry))
 	cf.result("V_retry", "c15_retry_violations retry_cases")
 	cf.result("M_retry", "c15_retry_mismatches retry_cases")
+	cf.def("handle_cases", "list c15_handle_case", cList(o.handle))
+	cf.result("V_handle", "c15_handle_violations handle_cases")
+	cf.result("M_handle", "c15_handle_mismatches handle_cases")
 	cf.def("cycle_cases", "list c15_cycle_case", cList(o.cycle))
 	cf.result("V_cycle", "c15_cycle_violations cycle_cases")
 	cf.result("M_cycle", "c15_cycle_mismatches cycle_cases")
 
 	m.ImplViolations = o.impl
-	m.Evaluations = len(o.seq) + len(o.conc) + len(o.bulk) + len(o.cycle) + len(o.wrapc) + len(o.retry)
+	m.Evaluations = len(o.seq) + len(o.conc) + len(o.bulk) + len(o.cycle) + len(o.wrapc) + len(o.retry) + len(o.handle)
 	m.DistinctNontrivial = len(o.nontriv) + o.nontrivN
-	m.Rule = "one evaluation = one scenario on a fresh connected BaseClient with the counter set by VerifSetIDLast (or left as initID chose it): seq = a history of requests and acknowledgements by one caller; conc = 1-16 callers in parallel, all requests outstanding; bulk = thousands of goroutines released together; cycle = one request never acknowledged + 70,000 acknowledged publishes (full cycle, reproduces F13); wrapc = one distinct outcome of the short contention trials at a wrap-around (thousands of trials, identical outcomes counted once); retry = one scenario of publishes, cuts and reconnections through a RetryClient. non-trivial = distinct scenario with at least 3 requests (seq), at least 2 callers and 4 requests (conc), every bulk, cycle and wrapc entry, retry scenarios with at least 4 PUBLISH attempts"
-	m.Distribution["scenarios"] = map[string]int{"seq": len(o.seq), "conc": len(o.conc), "bulk": len(o.bulk), "cycle": len(o.cycle), "wrapc": len(o.wrapc), "retry": len(o.retry)}
+	m.Rule = "one evaluation = one scenario on a fresh connected BaseClient with the counter set by VerifSetIDLast (or left as initID chose it): seq = a history of requests and acknowledgements by one caller; conc = 1-16 callers in parallel, all requests outstanding; bulk = thousands of goroutines released together; cycle = one request never acknowledged + 70,000 acknowledged publishes (full cycle, reproduces F13); wrapc = one distinct outcome of the short contention trials at a wrap-around (thousands of trials, identical outcomes counted once); retry = one scenario of publishes, cuts and reconnections through a RetryClient; handle = a request interrupted on client A whose retry handle is run on client B with requests outstanding. non-trivial = distinct scenario with at least 3 requests (seq), at least 2 callers and 4 requests (conc), every bulk, cycle and wrapc entry, retry scenarios with at least 4 PUBLISH attempts"
+	m.Distribution["scenarios"] = map[string]int{"seq": len(o.seq), "conc": len(o.conc), "bulk": len(o.bulk), "cycle": len(o.cycle), "wrapc": len(o.wrapc), "retry": len(o.retry), "handle": len(o.handle)}
 	m.Distribution["requests_issued"] = o.requests
 	m.Distribution["request_kinds"] = o.kinds
 	m.Distribution["start_counter"] = o.starts
